@@ -117,12 +117,13 @@ def gen_events(ctx):
             a=c5, b=c3, qt=(mode != "none"), ns=ns, base=base,
             reported=res.json["basepair_counts"]["quality_trimmed"] or 0)
     # (v) paired-end runs: -q applies to both mates unless -Q is given; reported per mate
-    n_pe = 15 if ctx.quick else 200
+    n_pe = 30 if ctx.quick else 300
     for k in range(n_pe):
+        pbase = rng.choice((33, 33, 64))            # the quality base shifts the scale for both mates alike
         def mk(r):
             n = rng.randint(0, 20)
             seq = "".join(rng.choice("ACGTG") for _ in range(n))
-            qs = "".join(chr(33 + rng.choice((1, 3, 8, 10, 12, 20, 25, 35))) for _ in range(n))
+            qs = "".join(chr(min(126, pbase + rng.choice((1, 3, 8, 10, 12, 20, 25, 35)))) for _ in range(n))
             return (f"p{r}", seq, qs)
         nr = rng.randint(1, 7)
         r1 = [mk(r) for r in range(nr)]
@@ -140,6 +141,8 @@ def gen_events(ctx):
             qt2 = False
         if ns >= 0:
             argv += ["--nextseq-trim", str(ns)]
+        if pbase == 64:
+            argv += ["--quality-base", "64"]
         interleaved_out = rng.random() < 0.3
         argv += ["--json", "rep.json", "-o", "o1.fastq"] + (["--interleaved"] if interleaved_out else ["-p", "o2.fastq"])
         argv += ["i1.fastq", "i2.fastq"]
@@ -159,7 +162,7 @@ def gen_events(ctx):
             add(f="qrun", argv=" ".join(argv),
                 reads=[dict(seq=codes(s_), q=codes(q)) for _, s_, q in reads],
                 outs=[dict(seq=codes(s_), q=codes(q or "")) for _, s_, q in outs],
-                a=a, b=b, qt=qt, ns=ns, base=33, reported=rep or 0)
+                a=a, b=b, qt=qt, ns=ns, base=pbase, reported=rep or 0)
         add(f="qsum", parts=[bp["quality_trimmed_read1"] or 0, bp["quality_trimmed_read2"] or 0],
             total=bp["quality_trimmed"] or 0)
     ctx.extra["event_counts"] = dict(small_scope=n_small, random=n_rand, nextseq=n_ns, cli=n_cli, cli_paired=n_pe)
